@@ -100,6 +100,38 @@ def one_program(ctx: Ctx, P):
     real = run_real(lambda: Diagonalize([ts[k] for k in order])(Gradients({ts[k]: vals[k] for k in ks})))
     rep = drv.ask(base + [["op", "diag", order], ["input", *[[k, flat(vals[k])] for k in ks]]])
     cmp(ctx, "Diagonalize", P, real, rep, jconv, {"keys": order})
+    # --- Diagonalize with non-finite gradient entries: the block structure must not depend on the values (an entry that
+    #     is ±inf or nan sits at its own position; every other entry of its column and row stays an exact zero)
+    if rng.random() < 0.3 and sum(numel(P.nodes[k].shape) for k in ks) >= 2:
+        bad = {k: v.clone() for k, v in vals.items()}
+        kk = rng.choice([k for k in ks if numel(P.nodes[k].shape) >= 1])
+        pos = rng.randrange(numel(P.nodes[kk].shape))
+        special = rng.choice([float("inf"), float("-inf"), float("nan")])
+        bad[kk].reshape(-1)[pos] = special
+        real_b = run_real(lambda: Diagonalize([ts[k] for k in order])(Gradients({ts[k]: bad[k] for k in ks})))
+        ctx.count("diagonalize_non_finite_entry")
+        if real_b[0] != "ok":
+            ctx.violation(f"Diagonalize raised {real_b[1]} on gradients containing {special}",
+                          {"transform": "Diagonalize", "program": P.describe(), "keys": order})
+        else:
+            off = 0
+            for k in order:
+                nk = numel(P.nodes[k].shape)
+                blk = real_b[1][ts[k]].reshape(-1, nk) if nk else real_b[1][ts[k]].reshape(-1, 0)
+                for j in range(nk):
+                    col = blk[:, j]
+                    want = bad[k].reshape(-1)[j]
+                    others = torch.cat([col[:off + j], col[off + j + 1:]])
+                    d = col[off + j]
+                    if not bool((others == 0).all()) or not (bool(d == want) or (bool(torch.isnan(d)) and bool(torch.isnan(want)))):
+                        ctx.violation(f"Diagonalize with a {special} gradient entry: column {j} of key n{k} is {col.tolist()} — it must "
+                                      f"hold {float(want)} at row {off + j} and exact zeros elsewhere",
+                                      {"transform": "Diagonalize", "program": P.describe(), "keys": order, "special": str(special)})
+                        break
+                else:
+                    off += nk
+                    continue
+                break
     # --- Select
     sub = [k for k in ks if rng.random() < 0.5]
     real = run_real(lambda: Select([ts[k] for k in sub], [ts[k] for k in ks])(Gradients({ts[k]: vals[k] for k in ks})))
@@ -130,9 +162,9 @@ def one_program(ctx: Ctx, P):
             rep = drv.ask(base + [["op", "grad", outs, []], ["input", *[[o, flat(cots[o])] for o in outs]]])
             cmp(ctx, "Grad", P, real, rep, gconv, {"outs": outs, "ins": []})
             ctx.count("degenerate_key_counts")
-        m = rng.choice([1, 2, 3, 5])
+        m = rng.choice([1, 2, 3, 5, 7, 10, 13])
         jc = {o: ints(rng, (m,) + tuple(P.nodes[o].shape)) for o in outs}
-        chunk = rng.choice([None, 1, 2, m, m + 1])
+        chunk = rng.choice([None, 1, 2, m, m + 1] + list(range(3, m)))       # every chunk size, dividing the batch or not
         jac_t = Jac([ts[o] for o in outs], [ts[i] for i in ins], chunk, retain_graph=True)
         real = run_real(lambda: jac_t(Jacobians({ts[o]: jc[o] for o in outs})))
         if real[0] == "ok":
